@@ -1,6 +1,7 @@
 import WzVerif.Driver.Proto
 import WzVerif.Driver.C01
 import WzVerif.Model.Urlencode
+import WzVerif.Model.MultipartClient
 namespace Wz.Driver.C02
 open Wz Wz.Proto Wz.Urlencode
 
@@ -12,6 +13,8 @@ commands (`mp.*`) are those of Driver/C01.
 `url.unquote    text`              `unquote(text, errors="werkzeug.url_quote")`
 `url.parseqsl   keepBlank text`    `parse_qsl(text, keep_blank_values, errors="werkzeug.url_quote")`
 `url.form       maxMem contentLength sched body`   `FormDataParser._parse_urlencoded`
+`mp.client      bnd items`         `stream_encode_multipart(data, boundary)`: items are `T:key:text` or
+                                   `U:key:filename|~:guessed type|~:headers:content`
 -/
 
 def pairsOut (l : List (Str × Str)) : String :=
@@ -51,9 +54,41 @@ def urlHandle : Handler
     | _, _, _, _ => some badArgs
   | _, _ => none
 
+/-- one (key, value) pair of the client's data mapping, with what `mimetypes.guess_type` says about
+its file name -/
+def clientItemArg (s : String) : Option ((Multipart.Str × Multipart.ClientValue) × Option (Multipart.Str × Multipart.Str)) :=
+  match s.splitOn ":" with
+  | ["T", k, v] => do
+    let k ← unhexStr k
+    let v ← unhexStr v
+    pure ((k, .text v), none)
+  | ["U", k, fn, g, h, c] => do
+    let k ← unhexStr k
+    let fn ← optArg unhexStr fn
+    let g ← optArg unhexStr g
+    let h ← C01.parseEvent.hdrs h
+    let c ← unhex c
+    pure ((k, .file c fn h), match fn, g with | some f, some g => some (f, g) | _, _ => none)
+  | _ => none
+
+def clientHandle : Handler
+  | "mp.client", [bnd, items] =>
+    match unhex bnd, C01.listArg clientItemArg items with
+    | some bnd, some items =>
+      let table := items.filterMap (·.2)
+      let guess : Multipart.Str → Option Multipart.Str := fun f => (table.find? (·.1 == f)).map (·.2)
+      some (match Multipart.clientEncode guess bnd (items.map (·.1)) with
+        | .ok b => hex b
+        | .error e => "EXC:" ++ e)
+    | _, _ => some badArgs
+  | _, _ => none
+
 def handle : Handler := fun cmd args =>
   match C01.handle cmd args with
   | some r => some r
-  | none => urlHandle cmd args
+  | none =>
+    match urlHandle cmd args with
+    | some r => some r
+    | none => clientHandle cmd args
 
 end Wz.Driver.C02
